@@ -149,13 +149,23 @@ def run_one(acc, c):
 
 
 def run_shard(tier, k, n, acc):
-    for c in shard_iter(cases(tier), k, n, acc):
-        run_one(acc, c)
+    import itertools
+
+    from . import c17
+    for c in shard_iter(itertools.chain(cases(tier), c17.overlap_subset()), k, n, acc):
+        if c.get("kind") == "gather":
+            c17.run_gather(acc, c)  # two awaits of one AsyncDAG object overlap: each returns what its own arguments give
+        else:
+            run_one(acc, c)
 
 
 def replay(v):
     from ..acc import Acc
     c = v["case"]
     a = Acc(ID, 0, 1, 600)
+    if c.get("kind") == "gather":
+        from . import c17
+        c17.run_gather(a, c, only_prefix=v["prefix"])
+        return a.violations, None
     from ..prog import replay_built
     return replay_built(a, v)
